@@ -332,6 +332,24 @@ def frun (t : Tbl) : List OOp → Option (Tbl × List (List Nat))
   | [] => some (t, [])
   | op :: ops => (fstepAll t op).bind (fun r => (frun r.1 ops).map (fun r' => (r'.1, r.2 :: r'.2)))
 
+/-! ### the same history on the plain grid (the spec of C01) -/
+
+/-- `get_row_values(y)` on the plain grid: the row completed with empty cells to the number of columns -/
+def gridRowValues (g : Odf.Grid.Grid) (y : Int) : List Nat :=
+  let yn := Odf.Grid.norm y (Odf.Grid.height g)
+  if yn ≥ Odf.Grid.height g then List.replicate g.ncols emptyCell
+  else Odf.Grid.padRow (g.rows.getD yn []) g.ncols
+
+def gstepAll (g : Odf.Grid.Grid) : OOp → Odf.Grid.Grid × List Nat
+  | .edit op => (gstep g op, [])
+  | .readValue x y => (g, [Odf.Grid.getValue g x y])
+  | .readRow y => (g, gridRowValues g y)
+  | .touchRow _ => (g, [])
+
+def grunAll (g : Odf.Grid.Grid) : List OOp → List (List Nat)
+  | [] => []
+  | op :: ops => (gstepAll g op).2 :: grunAll (gstepAll g op).1 ops
+
 /-- a table object right after parsing: no wrapper yet -/
 def parsed (t : Tbl) : OTbl := { t := t, tcache := [] }
 
